@@ -238,21 +238,18 @@ Lemma arasim_atten_length_constant s z f1 f2 :
 Proof. reflexivity. Qed.
 
 (* the trapezoid sums that make up the integral are monotone in the integrand *)
-Lemma trapz_sum_monotone (g1 g2 : R -> R) zs :
-  (forall z, In z zs -> 0 <= g1 z <= g2 z) -> 0 <= trapz_sum (map g1 zs) <= trapz_sum (map g2 zs).
-Proof.
-  induction zs as [|a [|b t] IH]; intros H; simpl; try lra.
-  assert (Ha := H a (or_introl eq_refl)). assert (Hb := H b (or_intror (or_introl eq_refl))).
-  assert (IH' : 0 <= trapz_sum (map g1 (b :: t)) <= trapz_sum (map g2 (b :: t))) by (apply IH; intros; apply H; right; assumption).
-  simpl in IH'. lra.
-Qed.
-
 Lemma trapz_dx_monotone (g1 g2 : R -> R) dx zs :
   (forall z, In z zs -> 0 <= g1 z <= g2 z) ->
   0 <= trapz_dx (Rabs dx) (map g1 zs) <= trapz_dx (Rabs dx) (map g2 zs).
 Proof.
-  intros H. unfold trapz_dx. pose proof (trapz_sum_monotone g1 g2 zs H) as [A B]. pose proof (Rabs_pos dx).
-  split; [apply Rmult_le_pos; assumption | apply Rmult_le_compat_l; assumption].
+  pose proof (Rabs_pos dx) as Hd.
+  induction zs as [|a [|b t] IH]; intros H; simpl; try lra.
+  assert (Ha := H a (or_introl eq_refl)). assert (Hb := H b (or_intror (or_introl eq_refl))).
+  assert (IH' : 0 <= trapz_dx (Rabs dx) (map g1 (b :: t)) <= trapz_dx (Rabs dx) (map g2 (b :: t))) by (apply IH; intros; apply H; right; assumption).
+  simpl in IH'.
+  assert (A : 0 <= Rabs dx * (g1 a + g1 b) <= Rabs dx * (g2 a + g2 b)).
+  { split; [apply Rmult_le_pos; lra | apply Rmult_le_compat_l; lra]. }
+  lra.
 Qed.
 
 (* BasicRayTracePath.attenuation: non-increasing in |f| when, at every node of its depth
